@@ -599,7 +599,7 @@ def apalache_nonce():
     t0 = _t.time()
     done = 0
     env = dict(os.environ)
-    env["JVM_ARGS"] = (env.get("JVM_ARGS", "") + f" -Djava.io.tmpdir={out}").strip()     # scratch files under work/, not /tmp
+    env["TMPDIR"] = out          # the launcher makes its SANY scratch directory with mktemp -t: under work/, not /tmp
     for nm, a in obligations:
         p = subprocess.run(["timeout", "900", "apalache-mc", "check", f"--out-dir={out}", "--cinit=ConstInit"] + a +
                            [os.path.join(SPEC, "NonceInd.tla")], capture_output=True, text=True, cwd=SPEC, env=env)
@@ -1215,9 +1215,11 @@ def selftest(tier, seed):
     except ToolError as e:
         expect("is violated" in str(e), "TLC finds a violated invariant with FullRollback = FALSE (C07/C06 at design level)")
     # (b) the nonce guard removed: Apalache must refute the inductive step
+    os.makedirs(os.path.join(WORK, "selftest-apalache"), exist_ok=True)
     p = subprocess.run(["timeout", "600", "apalache-mc", "check", f"--out-dir={os.path.join(WORK, 'selftest-apalache')}",
                         "--cinit=ConstInitBug", "--init=IndInit", "--inv=IndInv", "--length=1",
-                        os.path.join(SPEC, "NonceInd.tla")], capture_output=True, text=True, cwd=SPEC)
+                        os.path.join(SPEC, "NonceInd.tla")], capture_output=True, text=True, cwd=SPEC,
+                       env=dict(os.environ, TMPDIR=os.path.join(WORK, "selftest-apalache")))
     expect("EXITCODE: ERROR" in p.stdout and "violat" in p.stdout.lower(), "Apalache refutes IndInv when the nonce guard is removed")
     subprocess.run(["rm", "-rf", os.path.join(WORK, "selftest-apalache")])
     # (c) corrupted traces are rejected
